@@ -200,7 +200,8 @@ func runRedial(rec *Rec, app *App, fw *forwarder, sc *RedialScenario, n int) {
 		rt = -1
 	}
 	hooks := &dialHooks{rec: rec}
-	cli := erpc.NewPeer(erpc.PeerConfig{RedialTimes: rt, RedialInterval: 3 * time.Millisecond, DialTimeout: 200 * time.Millisecond}, hooks)
+	cli := erpc.NewPeer(erpc.PeerConfig{RedialTimes: rt, RedialInterval: 3 * time.Millisecond, DialTimeout: 200 * time.Millisecond}, hooks,
+		NewPlug(rec, "cli", "CL", "all", ""))
 	sess, st := cli.Dial(fw.addr)
 	rec.Emit("DialDone", "ok", st.OK())
 	if !st.OK() {
